@@ -55,7 +55,7 @@ func ruleSuffix(c *Ctx) {
 	}
 	fn := site.Fn
 	c.saw(fnName(fn))
-	c.Check(site.hasCreateRevisionZero(site.Key), rule, "put of suffix key in "+fnName(fn), "If(CreateRevision(suffixKey) == 0): an assigned suffix is never overwritten", P.instrPos(site.Op), "")
+	c.Check(site.hasCreateRevisionZero(P, site.Key), rule, "put of suffix key in "+fnName(fn), "If(CreateRevision(suffixKey) == 0): an assigned suffix is never overwritten", P.instrPos(site.Op), "")
 	// existing suffix is returned before any put: put is dominated by the false edge of cur == dcLocation (for every entry)
 	var dcParam ssa.Value
 	for _, p := range fn.Params {
